@@ -17,7 +17,7 @@ import (
 
 // C14: files conform to the v4 layout and decode independently to the flushed state.
 
-var mixC14 = Mix{Set: 34, Delete: 10, GetItem: 2, Visit: 1, Flush: 14, Evict: 4, Reopen: 4, SetCollNew: 3, RemoveColl: 2, CopyTo: 2, FlushRevert: 1, CollWrite: 1}
+var mixC14 = Mix{Set: 34, Delete: 10, GetItem: 2, Visit: 1, Flush: 14, Evict: 4, Reopen: 4, SetCollNew: 3, RemoveColl: 2, CopyTo: 2, FlushRevert: 1, CollWrite: 1, FaultyFlush: 2}
 
 func init() {
 	register(&Prop{
@@ -64,7 +64,7 @@ func runC14(ctx *Ctx, idx int) Result {
 	big := r.P(4)
 	flushes := 0
 	for i := 0; i < hc.Steps && !e.Failed(); i++ {
-		nf := e.Stats["op.Flush"]
+		nf := int64(len(e.M.Flushes)) // (successful flushes only)
 		ncp := e.Stats["op.CopyTo"]
 		if big && i == hc.Steps/2 {
 			if n := h.liveName(); n != "" {
@@ -73,7 +73,7 @@ func runC14(ctx *Ctx, idx int) Result {
 			}
 		}
 		h.Step()
-		if e.Stats["op.Flush"] > nf && !e.Failed() {
+		if int64(len(e.M.Flushes)) > nf && !e.Failed() {
 			flushes++
 			// the last write of the Flush is exactly one root record
 			wl := e.F.WriteLog()
